@@ -534,3 +534,67 @@ Proof.
 Qed.
 
 End Run.
+
+Section Ids.
+Variable g : N -> N.
+Variable O : list N.
+Variable d0 : N.
+
+(* request ids are unique: an entry of [exps] is THE reference answer of that request *)
+Definition ids_ok (c : cfg) : Prop :=
+  NoDup (map fst (exps c)) /\ forall x, In x (exps c) -> fst x < nid c.
+
+Lemma nodup_snoc (l : list N) a : NoDup l -> ~ In a l -> NoDup (l ++ [a]).
+Proof.
+  induction l as [|x l IH]; intros Hn Hi; simpl.
+  - constructor; [intros [] | constructor].
+  - inversion Hn; subst. constructor.
+    + intro Hx. apply in_app_or in Hx. destruct Hx as [Hx | [Hx | []]]; [contradiction|].
+      subst. apply Hi. left. reflexivity.
+    + apply IH; [assumption|]. intro Hx. apply Hi. right. exact Hx.
+Qed.
+
+Lemma ids_step c o c' : ids_ok c -> step g O c o = Some c' -> ids_ok c'.
+Proof.
+  intros [Hn Hb] Hs. destruct o; simpl in Hs.
+  - destruct (write g (st c) _); inversion Hs; subst; split; assumption.
+  - destruct (closed (st c)); inversion Hs; subst; split; assumption.
+  - destruct (closed (st c)); inversion Hs; subst; split; assumption.
+  - assert (ids_ok (mkCfg (st c) (pos c) (ref c) (nid c + 1) (outs c) (exps c ++ [(nid c, ref_read (ref c) off length)]))) as [A B].
+    { split; simpl.
+      - rewrite map_app. simpl. apply nodup_snoc; [exact Hn|].
+        intro Hx. apply in_map_iff in Hx. destruct Hx as (x & E & Hx). specialize (Hb x Hx). lia.
+      - intros x Hx. apply in_app_or in Hx. destruct Hx as [Hx | [Hx | []]].
+        + specialize (Hb x Hx). lia.
+        + subst. simpl. lia. }
+    destruct (read (st c) (nid c) off length); inversion Hs; subst; split; simpl; assumption.
+  - inversion Hs; subst; split; assumption.
+  - destruct (fired (st c)); inversion Hs; subst; split; assumption.
+  - inversion Hs; subst; split; assumption.
+  - destruct (closed (st c)); inversion Hs; subst; split; assumption.
+Qed.
+
+Lemma ids_run : forall l c c', ids_ok c -> run_from g O c l = Some c' -> ids_ok c'.
+Proof.
+  induction l as [|o l IH]; intros c c' Hi Hr; simpl in Hr.
+  - inversion Hr; subst. exact Hi.
+  - destruct (step g O c o) as [c1|] eqn:Hs; [|discriminate].
+    apply (IH c1 c'); [|exact Hr]. apply (ids_step c o c1); assumption.
+Qed.
+
+Lemma read_ids_unique_ok l c :
+  run g O d0 l = Some c ->
+  forall id e1 e2, In (id, e1) (exps c) -> In (id, e2) (exps c) -> e1 = e2.
+Proof.
+  intro Hr. assert (ids_ok c) as [Hn _].
+  { apply (ids_run l (init_cfg O d0) c); [|exact Hr]. split; simpl; [constructor | intros x []]. }
+  revert Hn. generalize (exps c). induction l0 as [|[i e] r IH]; intros Hn id e1 e2 H1 H2; [destruct H1|].
+  simpl in Hn. inversion Hn as [|? ? Hni Hn']; subst.
+  destruct H1 as [H1 | H1]; destruct H2 as [H2 | H2].
+  - congruence.
+  - inversion H1; subst. exfalso. apply Hni. apply in_map_iff. exists (id, e2). auto.
+  - inversion H2; subst. exfalso. apply Hni. apply in_map_iff. exists (id, e1). auto.
+  - apply (IH Hn' id); assumption.
+Qed.
+
+End Ids.
